@@ -137,10 +137,16 @@ def run(ctx):
 
     # R6 signs: on the scattering kernel itself with opaque inputs, so that the structure
     # (abs, max(.,0), squares) is what decides the sign - not the particular composition
-    callees = [c for c in ctx.src.callgraph().successors("nsf.neutron_scattering") if c.startswith("nsf.")
-               and c != "nsf.neutron_wavelength"]
+    # the kernel is the package function whose result neutron_scattering returns (tail call), found through the call graph
+    fns = ctx.src.func("nsf.neutron_scattering")
+    callees = []
+    for node in ast.walk(fns.node):
+        if isinstance(node, ast.Return) and isinstance(node.value, ast.Call) and isinstance(node.value.func, ast.Name):
+            r = ctx.src.resolve("nsf", node.value.func.id)
+            if r and r[0] == "func" and r[1] not in callees:
+                callees.append(r[1])
     if len(callees) != 1:
-        raise AnalysisError(f"expected one scattering kernel below neutron_scattering, found {callees}")
+        raise AnalysisError(f"expected neutron_scattering to return the result of one package function, found {callees}")
     kern = I.global_name("nsf", callees[0].split(".", 1)[1])
     N = sp.Symbol("N", positive=True)
     B = sp.Symbol("B", complex=True)
